@@ -76,6 +76,10 @@ def run(prop, tier, seed, scratch, t0):
                               "Relay.tla (results of the operations and final bags of envelopes per consumer/default handler); "
                               "TLC matched the log up to search depth %s" % (m.group(1) if m else "?"), replay=dst))
         validated = 0
+    # negative control of the binding: one recorded trace with one delivered envelope removed must be rejected
+    neg = "skipped (validation failed)"
+    if rt["ok"]:
+        neg = negative_control(scratch, trace, tdir, nenv, tw)
     # (c) stress
     ds = vlib.run_driver(binary, "TestRelayStress", dict(VERIF_STRESS_ROUNDS=rounds, VERIF_SEED=seed), scratch, "rstress", timeout=3000)
     dr.append(ds)
@@ -97,7 +101,7 @@ def run(prop, tier, seed, scratch, t0):
              "asynchronous consumer removal as silent step, final bags compared; (c) free-running stress (16 goroutines) with "
              "the schedule-independent accounting monitor (nothing lost, nothing twice, nothing to a rejecting consumer, "
              "default handler exclusive). distinct_nontrivial = graph edges executed + recorded traces accepted by TLC",
-        exhaustive=True, recorded_traces=traces, trace_lines=counts.get("trace_lines", 0), stress_puts=counts.get("stress_puts", 0),
+        exhaustive=True, trace_negative_control=neg, recorded_traces=traces, trace_lines=counts.get("trace_lines", 0), stress_puts=counts.get("stress_puts", 0),
         driver_counts=counts,
         tlc=[dict(config=x["cmd"].split("-config ")[1].split()[0], generated=x["generated"], distinct=x["distinct"],
                   wall_s=round(x["wall"], 1)) for x in tl],
@@ -107,6 +111,37 @@ def run(prop, tier, seed, scratch, t0):
                    "interleavings inside the relay are produced by the Go scheduler (stress, recorded traces), not enumerated; "
                    "no gate hooks are used", "relay close only in sequential histories"]
     return vlib.finish(prop, tier, seed, t0, cov, viol, assumptions)
+
+
+def negative_control(scratch, trace, tdir, nenv, tw):
+    cur, chosen = [], None
+    for ln in open(trace):
+        if not ln.strip():
+            continue
+        d = json.loads(ln)
+        if d.get("ev") == "reset":
+            cur = []
+            continue
+        cur.append(d)
+        if d.get("ev") == "final":
+            full = [c for c, g in d["got"].items() if g]
+            if full:
+                d["got"][full[0]] = d["got"][full[0]][1:]
+                chosen = cur
+                break
+    if chosen is None:
+        return "skipped (no delivery in any recorded trace)"
+    ndir = os.path.join(scratch, "tlc-RelayTrace_neg")
+    os.makedirs(ndir, exist_ok=True)
+    with open(os.path.join(ndir, "trace_neg.ndjson"), "w") as f:
+        for d in chosen:
+            f.write(json.dumps(d) + "\n")
+    rn = vlib.tlc(scratch, "RelayTrace", (TCFG % (names("a", nenv), names("b", nenv), names("c", 2 * tw) + ', "cz"')).replace(
+        "trace.ndjson", "trace_neg.ndjson"), name="RelayTrace_neg", workers=1, timeout=600)
+    if rn["ok"] or "ostcondition" not in (rn["violated"] or ""):
+        raise vlib.Inconclusive("negative control: a recorded trace with one delivered envelope removed was not rejected by "
+                                "RelayTrace.tla (%s): the trace binding is vacuous" % (rn["violated"] or "accepted"))
+    return "rejected as required (%d lines)" % len(chosen)
 
 
 def replay(prop, path, scratch):
